@@ -2,6 +2,7 @@
 import glob
 import itertools
 import os
+import re
 from vlib import *
 
 ID = "C36"
@@ -89,13 +90,15 @@ def canon_corpus():
 NAMES = ["Foo", "Bar", "Baz", "Qux"]
 
 
-def gen_file(rng, idx, nfiles, pkg):
+def gen_file(rng, idx, nfiles, pkg, acyclic=False):
     lines = []
     syn = rng.choice(['syntax = "proto2";', 'syntax = "proto3";', 'edition = "2023";', 'syntax = "proto2";', ''])
     lines.append(syn)
     lines.append("package %s;" % pkg)
     for _ in range(rng.choice([0, 1, 1, 2, 3])):
         k = rng.below(nfiles + 2)
+        if acyclic and k < nfiles:
+            k = rng.below(idx) if idx else nfiles
         target = "f%d.proto" % k if k < nfiles else rng.choice(["missing.proto", "google/protobuf/any.proto"])
         lines.append('import %s"%s";' % (rng.choice(["", "", "public ", "weak "]), target))
     for _ in range(rng.range(1, 4)):
@@ -129,7 +132,8 @@ def gen_file(rng, idx, nfiles, pkg):
 def gen_workspace(rng):
     nfiles = rng.range(2, 7)
     pkgs = [rng.choice(["p", "p", "p", "q", "p.q"]) for _ in range(nfiles)]
-    files = [{"path": "f%d.proto" % i, "text": gen_file(rng, i, nfiles, pkgs[i])} for i in range(nfiles)]
+    acyclic = rng.chance(7, 10)
+    files = [{"path": "f%d.proto" % i, "text": gen_file(rng, i, nfiles, pkgs[i], acyclic)} for i in range(nfiles)]
     if rng.chance(1, 3):           # an exact copy of a file under another path: same diagnostics, other path
         src = rng.choice(files)
         files.append({"path": "copy.proto", "text": src["text"]})
@@ -146,6 +150,74 @@ def testdata_files():
         except Exception:
             pass
     return out
+
+
+# ---------------------------------------------------------------- classifying a difference between two reports
+IMPORT_RE = re.compile(r'import\s+(?:public\s+|weak\s+)?"([^"]*)"')
+
+
+def has_import_cycle(files):
+    g = {f["path"]: set(IMPORT_RE.findall(f["text"])) for f in files}
+    state = {}
+
+    def dfs(u):
+        state[u] = 1
+        for v in g.get(u, ()):
+            if v not in g:
+                continue
+            if state.get(v) == 1 or (v not in state and dfs(v)):
+                return True
+        state[u] = 2
+        return False
+    return any(dfs(u) for u in list(g) if u not in state)
+
+
+def six(d):
+    return (d["Path"], d["Sort"], d["Start"], d["End"], d["Tag"], d["Msg"])
+
+
+KNOWN_WHAT = {
+    "tie-order": "diagnostics that agree on all six sort keys (e.g. the InFile-only warnings of two files: path empty, offsets 0) appear in an order that "
+                 "changes from run to run: Canonicalize has no further tie-break and incremental.Run appends the task reports in sync.Map.Range order",
+    "cyclic-import-blamed-on-schedule-dependent-file": "with an import cycle, which file's import is reported as closing the cycle (and what follows from the "
+                                                       "failed import) depends on the schedule",
+    "duplicate-symbol-check-skips-rest-of-file": "ir.DedupExportedSymbols leaves the loop over a file's symbols (break symCheck) at the first child of a duplicated "
+                                                 "symbol; the symbols are ordered by intern id, which depends on the schedule, so a `declared multiple times` error "
+                                                 "comes and goes",
+}
+
+
+def classify_diff(files, fa, fb):
+    """fa, fb: the element-wise dumps (JSON strings) of two reports of the same workspace. Returns [(key, what, detail)]."""
+    A, B = [json.loads(x) for x in fa], [json.loads(x) for x in fb]
+    res = []
+    if sorted(fa) == sorted(fb):
+        idx = [k for k, (x, y) in enumerate(zip(fa, fb)) if x != y]
+        detail = {"first_differing_index": idx[0], "element_a": A[idx[0]], "element_b": B[idx[0]]}
+        if [six(d) for d in A] == [six(d) for d in B]:
+            return [("tie-order", KNOWN_WHAT["tie-order"], detail)]
+        return [("report-order-differs", "the same diagnostics are reported in a different order, not explained by equal sort keys", detail)]
+    ca, cb = {}, {}
+    for x in fa:
+        ca[x] = ca.get(x, 0) + 1
+    for x in fb:
+        cb[x] = cb.get(x, 0) + 1
+    only_a = [json.loads(x) for x in ca for _ in range(max(0, ca[x] - cb.get(x, 0)))]
+    only_b = [json.loads(x) for x in cb for _ in range(max(0, cb[x] - ca.get(x, 0)))]
+    sym = only_a + only_b
+    dup = [d for d in sym if "declared multiple times" in d["Msg"]]
+    rest = [d for d in sym if "declared multiple times" not in d["Msg"]]
+    detail = {"only_in_a": only_a[:4], "only_in_b": only_b[:4]}
+    if rest:
+        if has_import_cycle(files) and any(d["Msg"].startswith("detected cyclic import") for d in rest):
+            k = "cyclic-import-blamed-on-schedule-dependent-file"
+            res.append((k, KNOWN_WHAT[k], detail))
+            return res           # a failed import changes everything downstream, duplicate reports included
+        res.append(("report-content-differs", "two runs report different sets of diagnostics", detail))
+    if dup:
+        k = "duplicate-symbol-check-skips-rest-of-file"
+        res.append((k, KNOWN_WHAT[k], detail))
+    return res
 
 
 # ---------------------------------------------------------------- Coq terms
@@ -173,8 +245,8 @@ def run(ctx):
     rng = ctx.rng
     # ---- part 1: Canonicalize on generated lists and on permutations of them
     lists = list(canon_corpus())
-    for k in range(ctx.budget(500, 12000)):
-        n = rng.choice([0, 1, 2, 3, 4, 5, 6, 8, 11, 12, 13, 14, 20, 30, 60])
+    for k in range(ctx.budget(170, 12000)):
+        n = rng.choice([0, 1, 2, 3, 4, 5, 6, 8, 11, 12, 13, 14, 20, 30, ctx.budget(16, 60)])
         lists.append(gen_list(rng, n, small=rng.chance(2, 3), sentinel=(k % 7 == 0)))
     ins, meta = [], []
     for li, (files, diags) in enumerate(lists):
@@ -189,7 +261,7 @@ def run(ctx):
             meta.append(li)
     ncanon = len(ins)
     cmp_ins = []
-    for _ in range(ctx.budget(600, 10000)):
+    for _ in range(ctx.budget(300, 10000)):
         files = [{"path": hx(rng.choice(PATHS))} for _ in range(2)]
         a = gen_diag(rng, 2, 1, small=rng.chance(1, 2))
         b = gen_diag(rng, 2, 2, small=rng.chance(1, 2))
@@ -265,7 +337,7 @@ def run(ctx):
     ctx.sample(ins[min(len(ins) - 1, 40)])
     header = ("From Coq Require Import List ZArith NArith Bool.\nImport ListNotations.\n"
               "From PV Require Import Common.Corr Model.Canon.\nOpen Scope Z_scope.\n")
-    mism, err = coq_eval_mismatches("cases_C36", header, terms, "canon_chk", shard_size=ctx.budget(250, 800))
+    mism, err = coq_eval_mismatches("cases_C36", header, terms, "canon_chk", shard_size=ctx.budget(90, 800))
     if err:
         raise RuntimeError(err)
     for k in mism:
@@ -277,7 +349,7 @@ def run(ctx):
     wss = []
     for p, t in td:
         wss.append(([{"path": p, "text": t}], [p], "testdata"))
-    for _ in range(ctx.budget(40, 600)):
+    for _ in range(ctx.budget(20, 600)):
         k = rng.range(2, 6)
         pick = [rng.choice(td) for _ in range(k)] if td else []
         seen, files = set(), []
@@ -287,13 +359,13 @@ def run(ctx):
                 files.append({"path": p, "text": t})
         if files:
             wss.append((files, [f["path"] for f in files], "testdata-combined"))
-    for _ in range(ctx.budget(160, 4000)):
+    for _ in range(ctx.budget(90, 4000)):
         files, ws = gen_workspace(rng)
         wss.append((files, ws, "generated"))
     reps = ctx.budget(3, 8)
     cins, cmeta = [], []
     for wi, (files, ws, kind) in enumerate(wss):
-        pars = range(1, 9) if kind != "testdata" else (1, 2, 8)
+        pars = (ctx.budget((1, 2, 4, 8), tuple(range(1, 9)))) if kind != "testdata" else ctx.budget((1, 8), (1, 2, 8))
         for par in pars:
             cins.append({"mode": "compile", "files": files, "workspace": ws, "par": par, "reps": reps})
             cmeta.append(wi)
@@ -318,28 +390,23 @@ def run(ctx):
         if o["tie_example"] and tie_example is None:
             tie_example = {"workspace": small, "pair": o["tie_example"]}
         ices += 1 if o["ice"] else 0
-        if o["diffs"]:
-            dd = o["diffs"][0]
-            idx = next((k for k, (x, y) in enumerate(zip(o["full"], dd["full"])) if x != y), min(len(o["full"]), len(dd["full"])))
-            ctx.violation("report-differs-between-runs",
-                          "two runs of the compiler on the same workspace with the same parallelism report different diagnostics",
-                          {"input": small, "run": dd["rep"], "first_differing_index": idx,
-                           "report_a": o["render"], "report_b": dd["render"],
-                           "element_a": o["full"][idx] if idx < len(o["full"]) else None,
-                           "element_b": dd["full"][idx] if idx < len(dd["full"]) else None})
+        for dd in o["diffs"]:
+            for key, what, detail in classify_diff(i["files"], o["full"], dd["full"]):
+                ctx.violation(key, "same workspace, same parallelism, run %s vs run 0: %s" % (dd["rep"], what),
+                              {"input": small, "run": dd["rep"], "report_a": o["render"], "report_b": dd["render"], "detail": detail})
         per_ws.setdefault(wi, []).append((i["par"], o))
     for wi, runs in per_ws.items():
         p0, o0 = runs[0]
         for p, o in runs[1:]:
             if o["render"] != o0["render"] or o["full"] != o0["full"]:
-                idx = next((k for k, (x, y) in enumerate(zip(o0["full"], o["full"])) if x != y), min(len(o0["full"]), len(o["full"])))
-                ctx.violation("report-differs-between-parallelism",
-                              "the compiler reports different diagnostics for the same workspace at two parallelism settings",
-                              {"files": wss[wi][0], "workspace": wss[wi][1], "par_a": p0, "par_b": p, "first_differing_index": idx,
-                               "report_a": o0["render"], "report_b": o["render"],
-                               "element_a": o0["full"][idx] if idx < len(o0["full"]) else None,
-                               "element_b": o["full"][idx] if idx < len(o["full"]) else None})
-                break
+                if o["full"] == o0["full"]:
+                    ctx.violation("rendering-differs", "same diagnostics, different rendered text", {"files": wss[wi][0], "workspace": wss[wi][1],
+                                  "par_a": p0, "par_b": p, "report_a": o0["render"], "report_b": o["render"]})
+                    continue
+                for key, what, detail in classify_diff(wss[wi][0], o0["full"], o["full"]):
+                    ctx.violation(key, "same workspace, parallelism %d vs %d: %s" % (p0, p, what),
+                                  {"files": wss[wi][0], "workspace": wss[wi][1], "par_a": p0, "par_b": p,
+                                   "report_a": o0["render"], "report_b": o["render"], "detail": detail})
     ctx.extra["compile"] = {"workspaces": len(wss), "runs": ctx.traces, "diagnostics_seen": ndiag,
                             "adjacent_pairs_equal_on_all_six_keys_and_identical": ties_same,
                             "adjacent_pairs_equal_on_all_six_keys_but_different": ties_distinct,
@@ -352,5 +419,5 @@ def run(ctx):
                 "(sorted permutation + dedup as written + second pass); pairs through the real comparison vs dcmp. "
                 "(2) workspaces: every ir/testdata .proto, random combinations of them, and generated invalid multi-file workspaces (duplicate symbols "
                 "across files, extension number clashes, missing/cyclic/duplicate imports, unknown types, syntax damage), each compiled with "
-                "parallelism 1..8 x %d fresh executors + a cached re-run; rendered report and every diagnostic compared element-wise. "
+                "parallelism 1..8 (quick tier: 1, 2, 4, 8) x %d fresh executors + a cached re-run; rendered report and every diagnostic compared element-wise. "
                 "distinct = distinct input; non-trivial = >= 2 diagnostics in the list / >= 1 diagnostic reported" % reps)
